@@ -71,7 +71,8 @@ let event ev =
   | 'C' -> drain_all (); Stdlib.List.iter (fun r -> fire (ORemove (n r, None))) (ids_of arg)   (* pvDestroyRaws *)
   | 'E' -> Stdlib.List.iter dispose (ids_of arg)
   | 'S' -> fire (Scribble (n (int_of_string arg), Some (n 12345)))
-  | 'M' | '-' -> ()
+  | 'Z' -> if !st.head <> None then drain_all ()      (* NewRow that drained, allocated, failed and gave the buffer straight back *)
+  | 'M' | '-' | 'U' -> ()                              (* U: TryAdd / TryInsert / TryUpdate refused: the row stays detached *)
   | _ -> raise (Stuck "unknown-event")
 
 let same_set a b = Stdlib.List.sort compare a = Stdlib.List.sort compare b
